@@ -8,15 +8,20 @@ CONSTANTS Conns,       \* connection ids (two for OthersUnaffected)
           MaxReq,      \* pipeline length per connection
           QCaps,       \* result queue capacities explored
           Kinds,       \* service kinds
-          MaxCredit, MaxTick, MaxAbort
+          MaxCredit, MaxTick, MaxAbort,
+          NP,          \* pieces per frame (1 = the transport takes whole frames)
+          Limit,       \* max_concurrent_connections
+          MaxFail      \* failed connection setups explored
 
 VARIABLES conns, dg, bud
 vars == <<conns, dg, bud>>
 
-Init == /\ \E q \in QCaps : conns = [c \in Conns |-> InitConn(Dev, q)]
+Init == /\ \E q \in QCaps : conns = [c \in Conns |-> [InitConn(Dev, q) EXCEPT !.np = NP]]
         /\ dg = InitDg
         /\ bud = [sent |-> [c \in Conns |-> 0], credit |-> 0, tick |-> 0,
-                  abort |-> 0, down |-> FALSE, dsent |-> 0]
+                  abort |-> 0, down |-> FALSE, dsent |-> 0,
+                  nconn |-> 0,      \* ServerMetrics::num_connections
+                  fail |-> 0, refused |-> {}]
 
 Local(c, f) == conns' = [conns EXCEPT ![c] = f] /\ UNCHANGED dg
 S(c) == conns[c]
@@ -25,8 +30,15 @@ CanSend(c) == IsOpen(c) /\ ~S(c).ab /\ ~TailPartial(S(c)) /\ bud.sent[c] < MaxRe
 Sent(c) == bud' = [bud EXCEPT !.sent[c] = @ + 1]
 
 \* ---- environment ----
-Open(c) == /\ S(c).st = "none" /\ ~bud.down
-           /\ Local(c, EnvOpen(S(c))) /\ UNCHANGED bud
+\* stream.rs run_until_error / spawn_connection_handler, Connection::run, Drop
+AcceptOk(c) == /\ S(c).st = "none" /\ ~bud.down /\ bud.nconn < Limit
+               /\ Local(c, EnvOpen(S(c))) /\ bud' = [bud EXCEPT !.nconn = @ + 1]
+AcceptFail(c) == /\ S(c).st = "none" /\ ~bud.down /\ bud.nconn < Limit /\ bud.fail < MaxFail
+                 /\ Local(c, EnvNoConn(S(c))) /\ bud' = [bud EXCEPT !.fail = @ + 1]
+AcceptRefuse(c) == /\ S(c).st = "none" /\ ~bud.down /\ bud.nconn >= Limit
+                   /\ Local(c, EnvNoConn(S(c))) /\ bud' = [bud EXCEPT !.refused = @ \cup {c}]
+ConnClose(c) == /\ S(c).st = "closed" /\ S(c).live
+                /\ Local(c, [S(c) EXCEPT !.live = FALSE]) /\ bud' = [bud EXCEPT !.nconn = @ - 1]
 RecvFrame(c) == /\ CanSend(c)
                 /\ \E svc \in Kinds : Local(c, EnvSend(S(c), "query", bud.sent[c] + 1, svc))
                 /\ Sent(c)
@@ -64,6 +76,8 @@ ReadShort(c) == /\ LoopBranch(S(c)) = "read" /\ Head(S(c).inb).t = "short"
                 /\ Local(c, LoopStep(S(c))) /\ UNCHANGED bud
 ReadEof(c) == /\ LoopBranch(S(c)) = "read" /\ Head(S(c).inb).t = "eof"
               /\ Local(c, LoopStep(S(c))) /\ UNCHANGED bud
+WritePartial(c) == /\ LoopBranch(S(c)) = "wpart"
+                   /\ Local(c, LoopStep(S(c))) /\ UNCHANGED bud
 WriteOne(c) == /\ LoopBranch(S(c)) = "write"
                /\ Local(c, LoopStep(S(c))) /\ UNCHANGED bud
 WriteTimeout(c) == /\ LoopBranch(S(c)) = "wtimeout"
@@ -99,10 +113,10 @@ DSend == \E r \in DOMAIN dg.tasks :
 NextConn ==
   \/ HalfTick \/ CloseCmd
   \/ \E c \in Conns :
-       \/ Open(c) \/ RecvFrame(c) \/ RecvPartial(c) \/ RecvRest(c) \/ RecvShort(c)
+       \/ AcceptOk(c) \/ AcceptFail(c) \/ AcceptRefuse(c) \/ ConnClose(c) \/ RecvFrame(c) \/ RecvPartial(c) \/ RecvRest(c) \/ RecvShort(c)
        \/ RecvReply(c) \/ PeerAbort(c) \/ Release(c) \/ Credit(c)
        \/ Flush(c) \/ TakeOne(c) \/ IdleTimeout(c) \/ Dispatch(c) \/ ReadShort(c)
-       \/ ReadEof(c) \/ WriteOne(c) \/ WriteTimeout(c) \/ WriteError(c) \/ Flushed(c)
+       \/ ReadEof(c) \/ WritePartial(c) \/ WriteOne(c) \/ WriteTimeout(c) \/ WriteError(c) \/ Flushed(c)
        \/ ServiceYield(c) \/ Enqueue(c)
 NextDg == DRecv \/ DRecvShort \/ DRecvReply \/ DRelease \/ DSend
 SpecConn == Init /\ [][NextConn]_vars
@@ -112,7 +126,17 @@ SpecDg   == Init /\ [][NextDg]_vars
 EachResponseOnce    == \A c \in Conns : EachOnce(S(c)) /\ NoneLost(S(c))
 EachResponseOnceDev == \A c \in Conns : EachOnce(S(c))        \* what still holds today
 IdQuestionPreserved == \A c \in Conns : IdPreserved(S(c))
-Framed              == \A c \in Conns : QueueBounded(S(c)) /\ (S(c).mode \in {"write", "flushwrite"} <=> S(c).cur # Nil)
+Framed              == \A c \in Conns : /\ QueueBounded(S(c)) /\ WireFramed(S(c))
+                                         /\ (S(c).mode \in {"write", "flushwrite"} <=> S(c).cur # Nil)
+\* the counter the limit is checked against is exactly the number of
+\* connections that exist (handler started, not yet dropped): failed
+\* setups and refusals leave no trace, so a connection is refused only
+\* while Limit connections really exist
+NumConnsExact == bud.nconn = Cardinality({c \in Conns : S(c).live})
+RefusedOnlyAtLimit ==
+  [][\A c \in Conns : (c \in bud'.refused /\ c \notin bud.refused)
+         => Cardinality({d \in Conns : conns[d].live}) >= Limit]_vars
+TornIsLast == [][\A c \in Conns : conns[c].torn => conns'[c].wrote = conns[c].wrote]_vars
 DgramEachOnce       == DgEachOnce(dg)
 \* a step of one connection leaves every other connection's state alone;
 \* the only global steps are the clock and the server-wide shutdown, and
